@@ -179,3 +179,211 @@ def register(w):
         note="returns a node having the value among its outputs (value names are unique after NameFixPass), or None",
     ))
     return G
+
+
+# =====================================================================
+# Mutations of the graph (events) and the helper queries the optimizer passes use
+# =====================================================================
+def install_mutations(w):
+    if getattr(w, "_graph_mut", False):
+        return
+    w._graph_mut = True
+    G = register(w)
+    from specs import ctxmodel
+    M = ctxmodel.register(w)
+    from specs.opaque import OPQ, fresh_opaque
+    import specs.opaque as opaque
+    opaque.install(w)
+    sel = z3.Select
+    w.fields[(GRAPH, "nodes")] = Seq(Ref(NODE))
+    w.fields[(GRAPH, "outputs")] = Seq(Ref(VALUE))
+    w.fields[(GRAPH, "inputs")] = Seq(Ref(VALUE))
+    w.fields[(VALUE, "const_value")] = Opt(Ref(OPQ))
+    w.lenient_sorts = set(getattr(w, "lenient_sorts", set())) | {NODE, GRAPH}
+
+    def bump(ex):
+        ex.ghost["heap_version"] = ex.fresh_const("hv", z3.IntSort())
+
+    def ev(ex, *rec):
+        ex.events.append(("mut",) + rec + ({"hv": ex.ghost.get("heap_version", z3.IntVal(0)), "now": (ex.now() if ex.track_alloc else None)}, ex.cur_line))
+
+    # list(graph) / iteration over a graph: its node list
+    def iter_hook(ex, it):
+        if isinstance(it, VRef) and it.sort == GRAPH:
+            s = ex.read_field(it, "nodes")
+            ex.assume(s.length >= 0)
+            return s
+        return None
+    w.iter_hooks.append(iter_hook)
+
+    def method_hook(ex, recv, name, args, kw):
+        if isinstance(recv, VRef) and recv.sort == NODE and name == "replace_input_with":
+            idx, val = args
+            ins = ex.read_field(recv, "inputs")
+            it = ex.as_int_term(idx)
+            if ex.branch(z3.Or(it < 0, it >= ins.length)):
+                raise PyRaise("ValueError", "replace_input_with: index out of range")
+            ev(ex, "replace_input", recv, it, val, ex.snapshot_heap())
+            ins.arrs = [z3.Store(ins.arrs[0], it, val.term if isinstance(val, VRef) else null_of(VALUE))]
+            ex.write_field(recv, "inputs", ins)
+            bump(ex)
+            return (NONE,)
+        if isinstance(recv, VRef) and recv.sort == GRAPH and name == "remove":
+            nodes = args[0]
+            items = ex.as_concrete_items(nodes) if isinstance(nodes, (VList, VTuple)) else ([nodes] if isinstance(nodes, VRef) else None)
+            if items is None:
+                ev(ex, "remove_many", recv, nodes, ex.snapshot_heap())
+            else:
+                for n in items:
+                    ev(ex, "remove", recv, n, ex.snapshot_heap())
+            ex.havoc_field(GRAPH, "nodes")
+            bump(ex)
+            return (NONE,)
+        return None
+    w.method_hooks.append(method_hook)
+    w.known_methods = set(getattr(w, "known_methods", set())) | {(NODE, "replace_input_with"), (GRAPH, "remove")}
+    w.method_effects = dict(getattr(w, "method_effects", {}))
+    w.method_effects.update({"replace_input_with": [(NODE, "inputs")], "remove": [(GRAPH, "nodes")]})
+
+    def rauw(ex, args, kw):
+        a, b = args[0], args[1]
+        flag = kw.get("replace_graph_outputs", VBool(False))
+        ev(ex, "rauw", a, b, flag, ex.snapshot_heap())
+        # every use of a (node inputs, graph outputs when asked) now reads b
+        arrs = ex.heap_arrays(NODE, "inputs")
+        n, i = z3.Const("n!rw", ref_sort(NODE)), z3.Int("i!rw")
+        new = z3.Lambda([n], z3.Lambda([i], z3.If(sel(sel(arrs[0], n), i) == a.term, b.term, sel(sel(arrs[0], n), i))))
+        ex.heap[(NODE, "inputs")] = [new, arrs[1]]
+        o = ex.heap_arrays(GRAPH, "outputs")
+        g = z3.Const("g!rw", ref_sort(GRAPH))
+        newo = z3.Lambda([g], z3.Lambda([i], z3.If(z3.And(ex.truthy(flag), sel(sel(o[0], g), i) == a.term), b.term, sel(sel(o[0], g), i))))
+        ex.heap[(GRAPH, "outputs")] = [newo, o[1]]
+        bump(ex)
+        return NONE
+    w.path_models["onnx_ir.convenience.replace_all_uses_with"] = rauw
+    w.method_effects["replace_all_uses_with"] = [(NODE, "inputs"), (GRAPH, "outputs")]
+
+    # node.attributes: reads through the assumed helper contracts, writes are events
+    def attrs_getattr(ex, base, attr):
+        if base.sort == NODE and attr == "attributes":
+            return VPy(obj=("node_attributes", base))
+        if base.sort == GRAPH and attr == "initializers":
+            return VPy(obj=("graph_initializers", base))
+        return None
+    w.ref_getattr_hooks.insert(0, attrs_getattr)
+
+    def setitem_hook(ex, base, idx, v):
+        if isinstance(base, VPy) and isinstance(base.obj, tuple) and base.obj and base.obj[0] == "node_attributes":
+            ev(ex, "set_attr", base.obj[1], idx, v, ex.snapshot_heap())
+            bump(ex)
+            return True
+        return False
+    w.setitem_hooks.append(setitem_hook)
+
+    def method_hook2(ex, recv, name, args, kw):
+        if isinstance(recv, VPy) and isinstance(recv.obj, tuple) and recv.obj and recv.obj[0] == "graph_initializers" and name == "add":
+            ev(ex, "add_initializer", recv.obj[1], args[0], ex.snapshot_heap())
+            return (NONE,)
+        return None
+    w.method_hooks.append(method_hook2)
+
+    w.path_models["onnx_ir.tensor"] = lambda ex, args, kw: _tensor_of(ex, args[0])
+    w.path_models["numpy.array"] = lambda ex, args, kw: args[0]
+
+    def _tensor_of(ex, payload):
+        t = fresh_opaque(ex)
+        t.payload = payload
+        return t
+
+    # metadata writes are events too (C08)
+    orig_setattr = w.ref_setattr
+
+    def ref_setattr(ex, base, attr, v):
+        if base.sort == VALUE and attr in ("shape", "type", "const_value"):
+            ev(ex, "set_meta", base, attr, v, ex.snapshot_heap())
+            if attr == "const_value":
+                base_payload = getattr(v, "payload", None)
+                ex.ghost.setdefault("const_payloads", {})[str(base.term)] = base_payload
+        return orig_setattr(ex, base, attr, v)
+    w.ref_setattr = ref_setattr
+
+    # ---- helper queries: assumed relational contracts (pure functions of the heap at call time)
+    V, N = ref_sort(VALUE), ref_sort(NODE)
+    perm_len = w.fn("perm_len", N, z3.IntSort(), z3.IntSort())          # (node, heap version)
+    perm_at = w.fn("perm_at", N, z3.IntSort(), z3.IntSort(), z3.IntSort())
+
+    def hv(ex):
+        return ex.ghost.get("heap_version", z3.IntVal(0))
+    w.graph_hv = hv
+
+    def post_perm(c: Ctx):
+        r = c.result
+        if isinstance(r, VNone):
+            return z3.BoolVal(True)
+        n = c["node"].term
+        k = z3.Int("k!pm")
+        h = hv(c.ex)
+        return z3.And(r.length == perm_len(n, h), r.length >= 0,
+                      z3.ForAll([k], z3.Implies(z3.And(0 <= k, k < r.length), z3.And(sel(r.arrs[0], k) == perm_at(n, h, k), 0 <= sel(r.arrs[0], k), sel(r.arrs[0], k) < r.length))))
+    for nm in ("_transpose_perm", "_get_perm_attr"):
+        w.add_contract(Contract(f"{MO}:{nm}", params={"node": Ref(NODE)}, ret=Opt(Seq(Int)), assumed=True, ensures=[("is_the_perm_attribute", post_perm)],
+                                note="the INTS attribute `perm` of the node: a valid permutation of 0..rank-1 (ONNX validity of input graphs), or None"))
+    w.graph_perm = (perm_len, perm_at)
+
+    consumers_in = w.fn("is_consumer_in_nodes", N, V, z3.IntSort(), z3.BoolSort())
+
+    def reads(ex, n, v):
+        i = z3.Int("i!rd")
+        arrs = ex.heap_arrays(NODE, "inputs")
+        return z3.Exists([i], z3.And(0 <= i, i < sel(arrs[1], n), sel(sel(arrs[0], n), i) == v))
+    w.graph_reads = reads
+
+    def post_consumers(c: Ctx):
+        v = c["value_or_name"]
+        r = c.result
+        if isinstance(v, VNone):
+            return r.length == 0
+        nodes = c["nodes"]
+        n, k = z3.Const("n!cs", N), z3.Int("k!cs")
+        in_nodes = z3.Exists([k], z3.And(0 <= k, k < nodes.length, sel(nodes.arrs[0], k) == n))
+        in_res = z3.Exists([k], z3.And(0 <= k, k < r.length, sel(r.arrs[0], k) == n))
+        return z3.And(r.length >= 0, z3.ForAll([n], in_res == z3.And(in_nodes, reads(c.ex, n, v.term))))
+    w.add_contract(Contract(f"{MG}:_consumer_nodes", params={"nodes": Seq(Ref(NODE)), "value_or_name": Opt(Ref(VALUE))}, ret=Seq(Ref(NODE)), assumed=True, uf=True, reads_heap=True,
+                            ensures=[("exactly_the_nodes_reading_the_value", post_consumers)],
+                            note="the nodes of `nodes` that have the value among their inputs (value names are unique after NameFixPass, so the name-based fallback agrees)"))
+
+    attr_int = w.fn("attr_as_int", ref_sort(ATTR), z3.IntSort())
+    w.add_contract(Contract(f"{MO}:_get_attr", params={"node": Ref(NODE), "name": Str}, ret=Opt(Ref(ATTR)), assumed=True, uf=True, reads_heap=True, note="node.attributes.get(name) if it is an ir.Attr"))
+    w.add_contract(Contract(f"{MO}:_attr_to_int", params={"attr": Opt(Ref(ATTR))}, ret=Opt(Int), assumed=True,
+                            ensures=[("is", lambda c: z3.BoolVal(True) if isinstance(c.result, VNone) or isinstance(c["attr"], VNone) else c.result.term == attr_int(c["attr"].term))],
+                            note="integer payload of an INT/INTS attribute"))
+    w.fields[(ATTR, "type")] = Enum("AttributeType")
+    attr_ints_len = w.fn("attr_ints_len", ref_sort(ATTR), z3.IntSort())
+    attr_ints_at = w.fn("attr_ints_at", ref_sort(ATTR), z3.IntSort(), z3.IntSort())
+
+    def attr_methods(ex, recv, name, args, kw):
+        if isinstance(recv, VRef) and recv.sort == ATTR and name == "as_ints" and not args:
+            r = ex.fresh("as_ints", Seq(Int))
+            k = z3.Int("k!ai")
+            ex.assume(z3.And(r.length == attr_ints_len(recv.term), r.length >= 0))
+            ex.assume(z3.ForAll([k], z3.Implies(z3.And(0 <= k, k < r.length), sel(r.arrs[0], k) == attr_ints_at(recv.term, k))))
+            return (r,)
+        return None
+    w.method_hooks.append(attr_methods)
+    w.known_methods = set(getattr(w, "known_methods", set())) | {(ATTR, "as_ints")}
+    w.graph_attr_ints = (attr_ints_len, attr_ints_at)
+    w.trust("onnx_ir.Attr: .type is the AttributeType tag, .as_ints() returns the INTS payload (a pure function of the attribute object)")
+    const_len = w.fn("const_ints_len", V, z3.IntSort(), z3.IntSort())
+    const_at = w.fn("const_ints_at", V, z3.IntSort(), z3.IntSort(), z3.IntSort())
+
+    def post_const_ints(c: Ctx):
+        r, v = c.result, c["val"]
+        if isinstance(r, VNone) or isinstance(v, VNone):
+            return z3.BoolVal(True)
+        k = z3.Int("k!ci")
+        h = hv(c.ex)
+        return z3.And(r.length == const_len(v.term, h), r.length >= 0, z3.ForAll([k], z3.Implies(z3.And(0 <= k, k < r.length), sel(r.arrs[0], k) == const_at(v.term, h, k))))
+    w.add_contract(Contract(f"{MO}:_value_const_ints", params={"val": Opt(Ref(VALUE))}, ret=Opt(Seq(Int)), assumed=True, ensures=[("is_the_constant_payload", post_const_ints)],
+                            note="the integer payload of a compile-time constant value, flattened; None for non-constants"))
+    w.graph_const = (const_len, const_at)
+    w.graph_attr_int = attr_int
